@@ -182,6 +182,7 @@ Proof.
   assert (Hdb : dec_bytes (k_seed_hash s) img =
      if pre =? 1 then Some (mk true true (k_seed_hash s) MAX_THETA [])
      else if pre =? 2 then
+      if (length img <? 16)%nat then None else
       do n <- rd 4 8 img;
       if n =? 0 then Some (mk true true (k_seed_hash s) MAX_THETA []) else
       if too_many n 8 (length img) then None else
@@ -234,7 +235,9 @@ Proof.
     { rewrite Himg. apply (skipn_app4 16 [_;_;_;_;_;_] (u16 _) (u32 _ ++ [0;0;0;0]) []). reflexivity. }
     assert (Htm : too_many (nent s) 8 (length img) = false).
     { unfold too_many. apply N.ltb_ge. rewrite Himg, !app_length, flat_u64_length. unfold nent. lia. }
-    rewrite Hc, Hu. cbn [bind]. rewrite En, Htm, Hsk, nent_to_nat, rd_entries_flat by assumption. cbn [bind].
+    assert (Hg16 : (length img <? 16)%nat = false).
+    { apply Nat.ltb_ge. rewrite Himg, !app_length. cbn [length]. unfold u16, u32. rewrite !N_to_le_bytes_length. lia. }
+    rewrite Hg16, Hc, Hu. cbn [bind]. rewrite En, Htm, Hsk, nent_to_nat, rd_entries_flat by assumption. cbn [bind].
     split; [reflexivity|]. f_equal. f_equal.
     rewrite !app_length, flat_u64_length. reflexivity.
   - (* three preamble longs: estimation mode *)
